@@ -21,6 +21,8 @@ func init() {
 			a.panicsAndAsserts("U.panic")
 			a.sexpDiscipline("S.sexp")
 			a.randomDiscipline("E.random")
+			a.akeStateInvariant("T.ake-state")
+			a.fragmentResetBeforeDispatch("S.fragment-reset")
 		})
 }
 
@@ -742,4 +744,79 @@ func factMatch(fs Facts, need string) bool {
 		}
 	}
 	return false
+}
+
+// akeStateInvariant: a key-exchange handler that leaves the conversation in a state other than AUTHSTATE_NONE leaves
+// it with the secret exponent (and with it the public value) of the running exchange in place: whenever something on
+// the way to such a return wiped the exchange context, a call that sets the exponent again succeeded afterwards. The
+// handlers of those states dereference these values without testing them.
+func (a *An) akeStateInvariant(rule string) {
+	R := a.R
+	establishes := func(call ssa.CallInstruction) bool {
+		for _, g := range a.C.Callees(call) {
+			g = a.C.unwrap(g)
+			if a.C.Name(g) == "(*Conversation).setSecretExponent" {
+				return true
+			}
+			if a.C.IsLib(g) && g.Blocks != nil && a.F.MustOK(g).Has("called:(*Conversation).setSecretExponent") {
+				return true
+			}
+		}
+		return false
+	}
+	nret, nw := 0, 0
+	for _, f := range a.C.FuncSeq {
+		if f.Blocks == nil || f.Signature.Recv() == nil || !strings.HasPrefix(f.Name(), "receive") || !strings.HasPrefix(typeName(f.Signature.Recv().Type()), "authState") {
+			continue
+		}
+		var wipers []ssa.Instruction
+		for _, b := range f.Blocks {
+			for _, in := range b.Instrs {
+				for _, ef := range a.E.InstrEffects(in) {
+					if ef.Kind == EffWipe && a.C.abs(f, ef.Path) == "Conversation.ake.secretExponent" {
+						wipers = append(wipers, in)
+						break
+					}
+				}
+			}
+		}
+		cnt := map[string]int{}
+		for _, r := range a.returnsOf(f) {
+			mi, ok := r.Results[0].(*ssa.MakeInterface)
+			if !ok {
+				continue // the state a delegate returned: judged there
+			}
+			st := typeName(mi.X.Type())
+			if st == "authStateNone" {
+				continue
+			}
+			nret++
+			fs := a.F.LocalAt(r)
+			good, why := true, ""
+			for _, w := range wipers {
+				if !canReach(w, r) {
+					continue
+				}
+				nw++
+				re := false
+				for _, b := range f.Blocks {
+					for _, in := range b.Instrs {
+						e, isCall := in.(ssa.CallInstruction)
+						if !isCall || !(in == w || canReach(w, in)) || !canReach(in, r) {
+							continue
+						}
+						if establishes(e) && (fs.Has("@ok:"+instKey(e)) || e.Value() == nil || statusIndex(e.Common().Signature()) < 0 && instrDominates(in, r)) {
+							re = true
+						}
+					}
+				}
+				if !re {
+					good = false
+					why = "the exchange context is wiped at " + a.C.InstrPos(w) + " and no call that draws a new exponent has succeeded on the way to this return"
+				}
+			}
+			R.Check(good, rule, ordinalKey(a.C.Name(f)+"|return "+st, cnt), "a handler that stays in or moves to "+st+" leaves the exchange's exponent in place", a.C.InstrPos(r), why+": the next message for "+st+" dereferences the wiped values (nil pointer)")
+		}
+	}
+	R.Check(nret >= 15 && nw >= 1, rule, "sites", "returns of non-initial states and wipes before them found", "", fmt.Sprintf("%d returns, %d wipe/return pairs", nret, nw))
 }
